@@ -207,12 +207,14 @@ func updateRegex(filePath string, ruleId string, chainOffset uint8, newRegex str
 		logger.Fatal().Msgf("Failed to find rule %s, chain offset, %d in %s", ruleId, chainOffset, filePath)
 	}
 
-	regexLine := lines[index]
-	found := regex.RuleRxRegex.FindAllStringSubmatch(string(regexLine), -1)
-	if len(found) == 0 {
+	regexLine := string(lines[index])
+	found := regex.RuleRxRegex.FindStringSubmatchIndex(regexLine)
+	if found == nil {
 		logger.Fatal().Msgf("Failed to find rule %s in %s", ruleId, filePath)
 	}
-	updatedLine := found[0][1] + newRegex + found[0][3]
+	// replace only the operand (group 2); keep every other byte of the line,
+	// including anything that follows the closing `" \` (e.g. the CR of a CRLF file)
+	updatedLine := regexLine[:found[4]] + newRegex + regexLine[found[5]:]
 	lines[index] = []byte(updatedLine)
 
 	err = os.WriteFile(filePath, bytes.Join(lines, []byte("\n")), fs.ModePerm)
